@@ -13,7 +13,8 @@
 (*   pairs     {[app,id,base,quote,batch,lastOid,lp]}            lp = last price * 1e4, 0 = none           *)
 (*   pools     {[app,id,pair,ranged,disabled,ps,lastDep,lastWd]}  ps = bank supply of the pool coin        *)
 (*   reqs      {[kind,app,pool,id,owner,x,y,pc,ax,ay,mint,wx,wy,status]}  kind D/W, status N/S/F           *)
-(*   orders    {[app,pair,id,owner,typ,dir,offer,rem,recv,amt,open,price,batch,exp,status]}                *)
+(*   orders    {[app,pair,id,owner,typ,dir,od,dd,offer,rem,recv,amt,open,price,batch,exp,status]}          *)
+(*             od / dd = denom of the offer coin / of the demand coin as recorded in the order                *)
 (*             typ L/M/MM, dir B/S, status NE NM PM (live) C X E (terminated, deleted at next block)       *)
 (*   qf, af    queued / active farm records;  mmx  market-making order index                              *)
 (*   lastPair, lastPool, par   per app (sequence indexed by app id)                                        *)
@@ -77,8 +78,12 @@ HasOrder(s, app, pair, id) == \E o \in s.orders : o.app = app /\ o.pair = pair /
 OrderOf(s, app, pair, id)  == CHOOSE o \in s.orders : o.app = app /\ o.pair = pair /\ o.id = id
 PairOfPool(s, pl) == PairOf(s, pl.app, pl.pair)
 Live(o) == o.status \in {"NE", "NM", "PM"}
-OfferDenom(s, o)  == LET p == PairOf(s, o.app, o.pair) IN IF o.dir = "B" THEN p.quote ELSE p.base
-DemandDenom(s, o) == LET p == PairOf(s, o.app, o.pair) IN IF o.dir = "B" THEN p.base ELSE p.quote
+OfferDenom(s, o)  == o.od            \* the coins an order really holds / wants are the ones recorded in it
+DemandDenom(s, o) == o.dd
+(* a message may name any coins; the handlers must reject an order whose coins are not the pair's (swap.go:70-101) *)
+CoinsOfPair(a, pr) ==
+  /\ ("od" \in DOMAIN a => a.od = (IF a.dir = "B" THEN pr.quote ELSE pr.base))
+  /\ ("dd" \in DOMAIN a => a.dd = (IF a.dir = "B" THEN pr.base ELSE pr.quote))
 Pcd(app, pool) == PcdT[app][pool]
 
 (* ------------------------------------------------------------------------------------------------------ *)
@@ -150,7 +155,7 @@ PlaceOrder(s, a, typ, P, offer) ==                          \* common tail of Li
       od   == IF a.dir = "B" THEN pr.quote ELSE pr.base
       id   == pr.lastOid + 1
       o    == [app |-> a.app, pair |-> a.pair, id |-> id, owner |-> a.u, typ |-> typ, dir |-> a.dir,
-               offer |-> offer, rem |-> offer, recv |-> 0, amt |-> a.amt, open |-> a.amt, price |-> P,
+               od |-> od, dd |-> (IF a.dir = "B" THEN pr.base ELSE pr.quote), offer |-> offer, rem |-> offer, recv |-> 0, amt |-> a.amt, open |-> a.amt, price |-> P,
                batch |-> pr.batch, exp |-> s.t + a.life, status |-> "NE"]
       b    == Apply(s.bal, {X(a.u, EscT[a.app][a.pair], od, offer + fee, "place")})
   IN IF a.offer < offer + fee \/ TooSmall(a.amt, P) \/ ~NonNeg(b) THEN Fail(s)
@@ -161,6 +166,7 @@ LimitOrder(s, a) ==
   IF a.price <= 0 \/ a.offer < MinCoin \/ a.amt < MinCoin \/ a.life < 0
      \/ a.offer < OfferFor(a.dir, a.price, a.amt) THEN Fail(s)                    \* ValidateBasic
   ELSE IF a.app \notin AppIds \/ ~HasPair(s, a.app, a.pair) THEN Fail(s)
+  ELSE IF ~CoinsOfPair(a, PairOf(s, a.app, a.pair)) THEN Fail(s)
   ELSE LET par == s.par[a.app]
            pr  == PairOf(s, a.app, a.pair)
            od  == IF a.dir = "B" THEN pr.quote ELSE pr.base
@@ -172,6 +178,7 @@ LimitOrder(s, a) ==
 MarketOrder(s, a) ==
   IF a.offer < MinCoin \/ a.amt < MinCoin \/ a.life < 0 THEN Fail(s)
   ELSE IF a.app \notin AppIds \/ ~HasPair(s, a.app, a.pair) THEN Fail(s)
+  ELSE IF ~CoinsOfPair(a, PairOf(s, a.app, a.pair)) THEN Fail(s)
   ELSE LET par == s.par[a.app]
            pr  == PairOf(s, a.app, a.pair)
            od  == IF a.dir = "B" THEN pr.quote ELSE pr.base
@@ -242,7 +249,8 @@ MMOrder(s, a, ticks, swapped) ==
                         b  == Apply(s1.bal, {x \in {X(a.u, EscT[a.app][a.pair], pr.base, offS, "mmS"),
                                                     X(a.u, EscT[a.app][a.pair], pr.quote, offB, "mmB")} : x.n > 0})
                         new == {[app |-> a.app, pair |-> a.pair, id |-> pr.lastOid + i, owner |-> a.u, typ |-> "MM",
-                                 dir |-> ticks[i].dir, offer |-> OfferFor(ticks[i].dir, ticks[i].price, ticks[i].amt),
+                                 dir |-> ticks[i].dir, od |-> (IF ticks[i].dir = "B" THEN pr.quote ELSE pr.base),
+                                 dd |-> (IF ticks[i].dir = "B" THEN pr.base ELSE pr.quote), offer |-> OfferFor(ticks[i].dir, ticks[i].price, ticks[i].amt),
                                  rem |-> OfferFor(ticks[i].dir, ticks[i].price, ticks[i].amt), recv |-> 0,
                                  amt |-> ticks[i].amt, open |-> ticks[i].amt, price |-> ticks[i].price,
                                  batch |-> pr.batch, exp |-> s.t + a.life, status |-> "NE"] : i \in DOMAIN ticks}
@@ -492,7 +500,7 @@ Farmed(s, pl) ==
 
 (* C04 *)
 C04GlobalEscrow(s) == \A d \in Denoms : s.bal[Gesc][d] >= PendingCoins(s, d)
-C04PairEscrow(s)   == \A p \in s.pairs : \A d \in {p.base, p.quote} : s.bal[EscT[p.app][p.id]][d] >= RemOf(s, p, d)
+C04PairEscrow(s)   == \A p \in s.pairs : \A d \in Denoms : s.bal[EscT[p.app][p.id]][d] >= RemOf(s, p, d)
 C04FarmBacked(s)   == \A pl \in s.pools : s.bal[Mod][Pcd(pl.app, pl.id)] = Farmed(s, pl)
 C04ZeroDisabled(s) == \A pl \in s.pools : pl.ps = 0 => pl.disabled
 (* pool-coin supply changes only by pool creation and by deposits / withdrawals executed against that pool *)
@@ -508,8 +516,8 @@ C04SupplyStep(s, s2) ==
 
 (* C07 *)
 (* every live order's claim (unspent offer + fee reserve) is in the pair escrow; an empty book leaves nothing *)
-C07EscrowCovers(s)   == \A p \in s.pairs : \A d \in {p.base, p.quote} : s.bal[EscT[p.app][p.id]][d] >= OwedOf(s, p, d)
-C07NothingRemains(s) == \A p \in s.pairs : LiveOf(s, p) = {} => \A d \in {p.base, p.quote} : s.bal[EscT[p.app][p.id]][d] = 0
+C07EscrowCovers(s)   == \A p \in s.pairs : \A d \in Denoms : s.bal[EscT[p.app][p.id]][d] >= OwedOf(s, p, d)
+C07NothingRemains(s) == \A p \in s.pairs : LiveOf(s, p) = {} => \A d \in Denoms : s.bal[EscT[p.app][p.id]][d] = 0
 (* a successful cancel-all ends every order of the signer (in the named pairs, or in all pairs when none is named) *)
 (* that is outside its placement batch: "can always be cancelled by its owner", cancel-all being one of the ways   *)
 (* of ending; the refund is demanded by the owner ledger below                                                    *)
